@@ -891,12 +891,9 @@ func bigCases(r *gen.Rng, level int) []func() {
 		loop([]int{125, 126, 65537, 0, 65536})
 	}
 	if level >= 3 {
-		for _, n := range []int{200 * 1024, 300*1024 + r.Intn(1000)} {
-			enc(n)
-			dec([]int{n}, []bool{false}, false, 0)
-			dec([]int{n}, []bool{true}, false, 0)
-		}
-		loop([]int{200 * 1024, 65536, 1})
+		enc(200 * 1024)
+		dec([]int{200 * 1024}, []bool{true}, false, 0)
+		enc(300*1024 + r.Intn(1000))
 	}
 	return out
 }
